@@ -49,7 +49,7 @@ let () = register "c07.diags" (fun line ->
   let others i = List.concat (remove_nth i gn) in
   let spec = List.mapi (fun i (p, b) -> (p, spec_diags the_cfg b (others i))) blocks in
   let cls = ref [] in
-  if List.exists (fun (_, b) -> multi_local_order b) blocks then cls := "multi_local_order" :: !cls;
+  (* class multi_local_order: repaired (fixes/C07-multi-local-order.diff) - `multi_local_order b` no longer excuses a deviation *)
   (* the guards of C07_diags_agree_partial that come from the layout of the Locs (all implied by Laid, theorem
      C07_laid_pos_clean / C07_laid_distinct): position filter clean, declaration Locs pairwise distinct, flags ok.
      They fail only through the lexer's column defects (C04 findings): one class, one finding *)
